@@ -14,6 +14,7 @@ CONSTANTS
   FIX_READD = TRUE
   FIX_STALE = TRUE
   FIX_RENAMEDIR = TRUE
+  FIX_SCANWATCHED = TRUE
   RECORD = TRUE
 INVARIANTS TypeOK Bounded WatchesOK EmitRow
 
